@@ -14,6 +14,7 @@ pub mod c09;
 pub mod c10;
 pub mod wiretypes;
 pub mod c11;
+pub mod c12;
 pub mod c13;
 pub mod c14;
 pub mod c15;
@@ -36,6 +37,7 @@ pub fn dispatch(id: &str, args: &Args) -> Option<Report> {
         "C09" => c09::run(args),
         "C10" => c10::run(args),
         "C11" => c11::run(args),
+        "C12" => c12::run(args),
         "C13" => c13::run(args),
         "C14" => c14::run(args),
         "C15" => c15::run(args),
